@@ -453,3 +453,77 @@ func (c *Check) deepCalls(f *Func, depth int) []*deepCall {
 	}
 	return out
 }
+
+// ---- role lookups for helper functions that rules used to name (kept refactor-stable) ----
+
+// scannerOf: the read-only keeper function whose only store effect is a scan of the family (e.g. earned-fee totals).
+func (c *Check) scannerOf(fam string) *Func {
+	var best *Func
+	for _, f := range c.handFuncs("keeper") {
+		if f.Obj == nil || len(f.Res) == 0 || isNamed(f.Res[0].Type(), "github.com/tendermint/tm-db", "Iterator") {
+			continue
+		}
+		n, ok := 0, true
+		for _, e := range c.P.SummaryOf(f).Effs {
+			if e.Kind == "emit" {
+				continue
+			}
+			n++
+			if !(e.Kind == "store" && e.Op == "Iter" && e.Family == fam && len(e.Chain) == 0) {
+				ok = false
+			}
+		}
+		if ok && n == 1 && (best == nil || f.Name < best.Name) {
+			best = f
+		}
+	}
+	return best
+}
+
+// fnBySignature: the keeper method with the given parameter / result type names (after ctx).
+func (c *Check) fnBySignature(params []string, results []string) *Func {
+	var best *Func
+	for _, f := range c.handFuncs("keeper") {
+		if f.Obj == nil || f.Recv == nil {
+			continue
+		}
+		var ps []string
+		for _, pr := range f.Params {
+			if isCtxType(pr.Type()) {
+				continue
+			}
+			ps = append(ps, typeName(pr.Type()))
+		}
+		var rs []string
+		for _, r := range f.Res {
+			rs = append(rs, typeName(r.Type()))
+		}
+		if strings.Join(ps, ",") == strings.Join(params, ",") && strings.Join(rs, ",") == strings.Join(results, ",") {
+			if best == nil || f.Name < best.Name {
+				best = f
+			}
+		}
+	}
+	return best
+}
+
+func nameOf(f *Func, fallback string) string {
+	if f == nil {
+		return fallback
+	}
+	return f.Name
+}
+
+func (c *Check) nEarned() string { return nameOf(c.scannerOf("0x18"), "keeper.Keeper.GetEarnedFees") }
+func (c *Check) nOwnerEarned() string {
+	return nameOf(c.scannerOf("0x19"), "keeper.Keeper.GetOwnerEarnedFees")
+}
+func (c *Check) nWithdrawAddr() string {
+	return nameOf(c.getterByFamily("0x07"), "keeper.Keeper.GetWithdrawAddress")
+}
+func (c *Check) nVolume() string {
+	return nameOf(c.getterByFamily("0x17"), "keeper.Keeper.GetRequestVolume")
+}
+func (c *Check) nParsePricing() string {
+	return nameOf(c.fnBySignature([]string{"string"}, []string{"types.Pricing", "error"}), "keeper.Keeper.ParsePricing")
+}
